@@ -337,6 +337,41 @@ def c0110(ctx):
                   "and a point read stops at the older version (not shown safe; accepted forms: levels[0], levels.first_mut(), levels.get_mut(0))" % idx, pt=p_)
 
 
+def closure_of_call(ctx, f, t):
+    """The closure body passed (as a generic argument) to the call whose terminator is t."""
+    mm = re.search(r"Closure\(DefId\([^)]*::(\{closure#\d+\})\)", str(t.get("ga")))
+    return ctx.prog.fns.get(f.key + "::" + mm.group(1)) if mm else None
+
+
+def reads_timestamp(g):
+    for b in g.blocks:
+        for st in b.st:
+            if st["s"] != "=":
+                continue
+            for pl in ((st["rv"].get("pl") or {}), ((st["rv"].get("a") or {}).get("pl") or {})):
+                if any(isinstance(e, dict) and "timestamp" in e.get("f", "") for e in pl.get("p", [])):
+                    return True
+    return False
+
+
+def ordering_direction(g, by_key):
+    """'asc' / 'desc' / None for a sort or min/max closure: a key function is ascending unless it wraps its key in cmp::Reverse; a comparator
+    is ascending when it compares (first parameter) with (second parameter) in that order."""
+    if by_key:
+        rev = any(st["s"] == "=" and st["rv"]["r"] == "agg" and (st["rv"].get("adt") or "").endswith("cmp::Reverse") for b in g.blocks for st in b.st)
+        return "desc" if rev else "asc"
+    order = None
+    for _b, c in g.calls():
+        if re.search(r"::cmp$|::partial_cmp$", c.get("callee") or "") and len(c["args"]) == 2:
+            ia = sorted({x["i"] for x in P.origins(g, c["args"][0]) if x["k"] == "param"})
+            ib = sorted({x["i"] for x in P.origins(g, c["args"][1]) if x["k"] == "param"})
+            if ia and ib and ia != ib:
+                order = "asc" if ia[-1] < ib[0] else "desc"
+    if any(re.search(r"Ordering::reverse$", c.get("callee") or "") for _b, c in g.calls()):
+        order = {"asc": "desc", "desc": "asc"}.get(order)
+    return order
+
+
 def c0111(ctx):
     R = "C01.11"
     ctx.declare(R, "level 0 is ordered by age, not by key: a file may leave it on its own (trivial move) only if it is the oldest file there -- "
@@ -486,6 +521,11 @@ def c011_version(ctx):
             srcs = P.origins(f, t["args"][0])
             if any(s["k"] == "call" and s["callee"].endswith("::rev") for s in srcs) or any(s["k"] == "call" and "Rev" in s["callee"] for s in srcs):
                 return True
+            for s in srcs:      # levels[0]
+                if s["k"] == "call" and re.search(r"Index.*::index$|index::index$", s["callee"]) and len(s["t"]["args"]) == 2:
+                    o = P.origins(f, s["t"]["args"][1])
+                    if o and all(x["k"] == "const" and x.get("v") == 0 for x in o) and any(y["k"] == "field" and y["f"] == "levels" for y in P.origins(f, s["t"]["args"][0])):
+                        return True
         return False
     a = [p for p in ls if is_l0(p)]
     b = [p for p in ls if p not in a]
@@ -498,6 +538,23 @@ def c011_version(ctx):
     ctx.check(R, f, "l0-first", p is None, "deeper levels are reached only through the L0 loop", "a deeper level can be consulted before level 0", pt=b[0], path=p)
     p = P.reach(f, P.after(f, b[0]), a)
     ctx.check(R, f, "never-back-to-l0", p is None, "level 0 is never consulted after a deeper level", "level 0 is consulted after a deeper level", pt=b[0], path=p)
+    # level 0 is walked newest first: its files are sorted by a timestamp and the walk starts at the newest end
+    for h in ha:
+        ity = K.loop_iterator_type(f, h)
+        revs = len(re.findall(r"\bRev<", ity))
+        src_pts = {x["pt"] for x in P.origins(f, P.term_at(f, h)["args"][0]) if x["k"] == "call"}
+        direction = None
+        for q_ in P.call_points(f, r"::sort(_unstable)?_by(_key|_cached_key)?$"):
+            c = P.term_at(f, q_)
+            if not (src_pts & {x["pt"] for x in P.origins(f, c["args"][0]) if x["k"] == "call"}):
+                continue
+            g = closure_of_call(ctx, f, c)
+            if g is not None and reads_timestamp(g) and not P.order(f, [q_], [h]):
+                direction = ordering_direction(g, bool(re.search(r"_key$", c["callee"])))
+        newest_first = (direction == "asc" and revs % 2 == 1) or (direction == "desc" and revs % 2 == 0)
+        ctx.check(R, f, "l0-newest-first", newest_first, "level 0 is sorted by timestamp (%s) and walked %s" % (direction, "in reverse" if revs % 2 else "forward"),
+                  "Version::load does not walk level 0 from its newest file to its oldest (sorted %s by timestamp, %d reversal(s) of the walk): "
+                  "level-0 files overlap, and the first hit wins" % (direction, revs), pt=h)
     # every file of a deeper level that can hold the key is consulted: the versions of one key can span adjacent files of a level
     # (outputs are cut by size), so the site sits in a loop over level.ssts[lower_bound(key)..upper_bound(key)] (or over the whole level)
     hb = heads[b[0]]
@@ -533,18 +590,6 @@ def c011_version(ctx):
               "in a deeper level every file between lower_bound(key) and upper_bound(key) is consulted, in order",
               "Version::load consults at most one file of a deeper level (%s): compaction outputs are cut by size, so the versions of one key can "
               "span two adjacent files with the newest in the first, and the read returns a stale value" % why, pt=b[0])
-    # newest first
-    sk = ctx.calls(R, f, r"sort_by_key$")
-    for pt in sk:
-        t = P.term_at(f, pt)
-        clo = [s.get("closure") for s in P.origins(f, t["args"][1]) if s["k"] == "agg" and s.get("closure")]
-        ok = False
-        for ck in clo:
-            g = ctx.prog.fns.get(ck) or next((x for x in ctx.prog.fns.values() if x.skey == ck), None)
-            if g and ".biggest_timestamp" in K.src_names(g, {"k": "copy", "pl": {"l": 0, "p": []}}):
-                ok = True
-        ctx.check(R, f, "l0-sorted", ok, "level 0 is sorted by biggest_timestamp", "level 0 is no longer sorted by biggest_timestamp", pt=pt)
-    ctx.order_chain(R, f, [("sort_by_key(biggest_timestamp)", sk), ("L0 loop", ha)])
     # early exits inside both loops
     for label, site in (("L0", a), ("deeper levels", b)):
         hs = heads[site[0]]
